@@ -1,4 +1,9 @@
-STREAMS = ["c17"]
+import os
+import core
+
+STREAMS = ["c17", "c17gw"]
+NEEDS_BINARY = True
+HARNESS_ARGS = ("-rdpgw", os.path.join(core.BUILD, "rdpgw"))
 RULE = ("matchauth: the real matchAuth on (smartcard, token, client capability) - quick: every 16-bit value with at most "
         "two bits set plus 4096 random values, thorough: all 4 x 65536; handshake: whole handshake packets through the real "
         "Processor.Process (version byte pairs, capability values, truncated and over-long bodies, random). "
